@@ -13,11 +13,12 @@
    request order (request i belongs to a group >= the group of request j whenever i >= j).
 
    NOT proven here (see notes/design/C04.md; checked on every run by the lock-step replay and
-   by the monitors of tools/props/c04.py only): the log forms rw_request_order (grant log
-   sorted), rw_sees_prior_writes, rw_granted_once, rw_progress, the value-refcount form of
-   rw_value_outlives, and "a read-write group has exactly one wrapper". *)
+   by the monitors of tools/props/c04.py only): rw_progress (stuck => every started access whose
+   predecessors are released has been granted) and [bad = false] under the sequential-use
+   contract of the mutex object (unconditionally it is refuted below); both need an invariant
+   over the thread-local work lists. *)
 From Coq Require Import List Arith Sorted.
-From Pika Require Import Base.Conc Model.RwMutex Proofs.RwMutexProofs Proofs.RwMutexLogProofs.
+From Pika Require Import Base.Conc Model.RwMutex Proofs.RwMutexProofs Proofs.RwMutexLogProofs Proofs.RwMutexReqProofs Proofs.RwMutexQueueProofs.
 Import ListNotations.
 
 (* wrappers of two different groups never exist at the same time: a read-write access never
@@ -84,6 +85,17 @@ Theorem C04_rw_request_order : forall sched, let g := fst (rw_run sched) in
 Proof. exact rw_request_order. Qed.
 Print Assumptions C04_rw_request_order.
 
+(* group numbers follow request indices ([treq] = position of the request in the sequence of
+   read()/readwrite() calls; a copy of a read sender/wrapper inherits it): of two granted
+   accesses the one in the earlier group was requested earlier, and accesses with the same
+   request index are in the same group.  Together with C04_rw_request_order: grants happen in
+   the order of the requests, up to reordering inside one read group. *)
+Theorem C04_rw_request_index : forall sched, let g := fst (rw_run sched) in
+  forall e1 k1 r1 e2 k2 r2, In (EGrant e1 k1 r1) (elog g) -> In (EGrant e2 k2 r2) (elog g) ->
+    (k1 < k2 -> r1 < r2) /\ (r1 = r2 -> k1 = k2) /\ r1 < nreq g /\ k1 < ngrp g.
+Proof. exact rw_request_index. Qed.
+Print Assumptions C04_rw_request_index.
+
 (* grants AND uses of the value together are sorted by request group *)
 Theorem C04_rw_log_sorted : forall sched, StronglySorted ge_nat (grps (elog (fst (rw_run sched)))).
 Proof. exact rw_log_sorted. Qed.
@@ -140,6 +152,35 @@ Theorem C04_rw_value_outlives : forall sched e, let g := fst (rw_run sched) in
   vrefs g = b2n (mvheld g) + cnt (fun k => vheld (grp g k)) (ngrp g).
 Proof. exact rw_value_outlives. Qed.
 Print Assumptions C04_rw_value_outlives.
+
+(* partial form of rw_progress (safety half: no grant is lost between the CAS-push and the
+   sentinel exchange): an operation state that was pushed is in the list of its group, which the
+   exchange in done() takes as a whole (every element gets its continuation, WDx); once the
+   head is the sentinel no operation state of that group is waiting in the queue (a later start
+   sees the sentinel and is granted inline).  Full statement, NOT proven (needs an invariant over
+   the thread-local work lists: every transient owner state TStarting/TGranting/TAuto/TTemp/TDone t,
+   every group in destructor phase 1/2 and every pending done() is backed by a work item of its
+   thread):
+     forall sched, (forall t, snd (rw_run sched) t = []) -> forall e, tstarted (tok g e) = true ->
+       (forall e', alive (tst (tok g e')) = true -> tgrp (tok g e) <= tgrp (tok g e')) ->
+       In e (grant_toks (elog g)) *)
+Theorem C04_rw_progress_partial : forall sched, let g := fst (rw_run sched) in
+  (forall e, tst (tok g e) = TQueued -> exists l, head (grp g (tgrp (tok g e))) = HList l /\ In e l) /\
+  (forall e, head (grp g (tgrp (tok g e))) = HSent -> tst (tok g e) <> TQueued).
+Proof. exact rw_no_lost_push. Qed.
+Print Assumptions C04_rw_progress_partial.
+
+(* [bad = false] in every reachable state is FALSE for the model as written: it lets other
+   threads use the sender of a request and issue mutex calls while the requesting thread is
+   still inside read()/readwrite() (the first group's done() is a separate work item), which
+   C++ does not allow (the sender has not been returned yet; concurrent calls on the mutex
+   object are excluded by its contract).  Witness: thread 0 requests; thread 1 drops that
+   sender and destroys the mutex; thread 0 then runs done() on the destroyed first group.  The
+   lock-step harness never produces such a schedule (it issues a mutex call only when no thread
+   is inside one); `bad = 0` is compared on every replayed schedule. *)
+Theorem C04_rw_no_bad_refuted : exists sched, bad (fst (rw_run sched)) = true.
+Proof. exact rw_no_bad_refuted. Qed.
+Print Assumptions C04_rw_no_bad_refuted.
 
 (* non-vacuity: W, R, R requested; the writer is granted inline; both readers queue behind it
    (one CAS fails spuriously first); releasing the writer runs its destructor on thread 1, whose
